@@ -472,7 +472,9 @@ void exec_step(const J &st, int incb) {
       b[0] = 0x20; b[1] = 0x01; b[14] = (unsigned char)(a >> 8); b[15] = (unsigned char)a;
       if (lng) {
         static const unsigned char mid[12] = {0x0d, 0xb8, 0x11, 0x11, 0x22, 0x22, 0x33, 0x33, 0x44, 0x44, 0x55, 0x55};
-        memcpy(b + 2, mid, 12);
+        // long == 2: every hexadecimal digit occurs (2001:db8:9abc:def0:1234:5678:fedc:<a>)
+        static const unsigned char hexmid[12] = {0x0d, 0xb8, 0x9a, 0xbc, 0xde, 0xf0, 0x12, 0x34, 0x56, 0x78, 0xfe, 0xdc};
+        memcpy(b + 2, lng == 2 ? hexmid : mid, 12);
       }
       if (op == "ghba") ares_gethostbyaddr(g_channel, &sin6.sin6_addr, sizeof sin6.sin6_addr, AF_INET6, host_cb, tok);
       else ares_getnameinfo(g_channel, (struct sockaddr *)&sin6, sizeof sin6, (int)st["flags"].num(ARES_NI_LOOKUPHOST), nameinfo_cb, tok);
